@@ -153,6 +153,12 @@ def oracle(pystog, case, res):
         _, y2, _ = back(np.array(case["xout"], float), np.array(res["yout"], float), np.array(case["xin"], float), **kw)
         y = np.array(case["yin"], float)
         N = case["N"]
+        if np.isfinite(y).all():
+            for nm_, arr_, grid_ in (("", yfw, case["xout"]), (" then back", y2, case["xin"])):
+                arr_ = np.asarray(arr_, float)
+                if not np.isfinite(arr_).all():
+                    j_ = int(np.flatnonzero(~np.isfinite(arr_))[0])
+                    return "%s%s: non-finite value %r at abscissa %r for finite data on matched grids (N=%d)" % (case["desc"]["method"], nm_, float(arr_[j_]), float(grid_[j_]), N)
         base = 1.0 if (d, X) in ((0, 0), (1, 0)) else 0.0
         amp = np.abs(y - base).max() + 1e-6 * np.abs(y).max() + 1e-300   # 1e-9 * 1e-6 = a few ulp of the data themselves
         x = np.array(case["xin"], float)
